@@ -1,6 +1,939 @@
-//! C08 — stub (to be implemented).
+//! C08 — CRAM codecs and integer codings decode exactly what was encoded, per the spec.
+//!
+//! Monitor (through hook H2, `noodles_cram::verif`):
+//! * self round trip `decode(encode(x)) == x` for rANS 4x8 order 0/1, rANS Nx16 under all 128 flag
+//!   subsets, the adaptive arithmetic coder under all 128 flag subsets, fqzcomp over record-length
+//!   partitions, the name tokenizer over lists of read names, gzip/bzip2/lzma at several levels;
+//! * cross decoding: every rANS 4x8 / Nx16 stream noodles emits is also decoded by the independent
+//!   decoders in `refrans` (written from the CRAM codecs specification) and compared with the input;
+//! * ITF8 / LTF8 / uint7: write -> read identity, byte-exact comparison of noodles' encoding with the
+//!   reference encoders in `refnum`, and decoding from a `ChunkedRead` that delivers one byte per
+//!   call; ITF8 over all 2^32 values in the thorough tier.
+//! Panics inside encode/decode are violations (`panic:<call site signature>`).
+
+mod genc;
+mod refnum;
+mod refrans;
+
+use std::io::Read;
+
+use noodles_cram::verif::{codecs, num};
+use serde_json::{Map, Value, json};
+use vcore::{
+    CaseOut, Ctx, Report, Rng, Tier,
+    adv::{ChunkedRead, Sizes},
+    guard,
+    report::hex,
+    rng::fnv1a,
+    run_cases,
+};
+
+use genc as gen_;
+
+#[derive(Clone, Debug)]
+struct Case {
+    /// "payload" | "names" | "quals" | "itf8_range" | "itf8_set" | "ltf8" | "uint7"
+    kind: &'static str,
+    /// payload class / name family / quality style / integer sub-set
+    class: String,
+    /// payload length / number of names / number of records / number of random values
+    len: usize,
+    pseed: u64,
+    /// run configuration `i` of this case iff `i % part.1 == part.0`
+    part: (u32, u32),
+    /// first value of an exhaustive ITF8 range (as unsigned bit pattern)
+    lo: u64,
+}
+
+fn case_json(c: &Case) -> Value {
+    json!({"kind": c.kind, "class": c.class, "len": c.len, "pseed": c.pseed, "part": [c.part.0, c.part.1], "lo": c.lo})
+}
+
+// ------------------------------------------------------------------------------------------------
+// flag naming
+// ------------------------------------------------------------------------------------------------
+
+const NX16_BITS: [(u8, &str); 7] =
+    [(0x01, "ORDER"), (0x04, "N32"), (0x08, "STRIPE"), (0x10, "NO_SIZE"), (0x20, "CAT"), (0x40, "RLE"), (0x80, "PACK")];
+const AAC_BITS: [(u8, &str); 7] =
+    [(0x01, "ORDER"), (0x04, "EXT"), (0x08, "STRIPE"), (0x10, "NO_SIZE"), (0x20, "CAT"), (0x40, "RLE"), (0x80, "PACK")];
+
+fn flag_names(bits: &[(u8, &str); 7], f: u8) -> String {
+    let v: Vec<&str> = bits.iter().filter(|(b, _)| f & b != 0).map(|(_, n)| *n).collect();
+    if v.is_empty() { "none".into() } else { v.join("|") }
+}
+
+/// The i-th of the 128 subsets of the 7 flag bits.
+fn subset(bits: &[(u8, &str); 7], i: u32) -> u8 {
+    let mut f = 0u8;
+    for (k, (b, _)) in bits.iter().enumerate() {
+        if i >> k & 1 == 1 {
+            f |= b;
+        }
+    }
+    f
+}
+
+// ------------------------------------------------------------------------------------------------
+// one codec round trip
+// ------------------------------------------------------------------------------------------------
+
+struct Trip<'a> {
+    o: &'a mut CaseOut,
+    what: String,
+    /// class + length class, for the distinct count
+    fp_class: String,
+}
+
+fn io_kind(e: &std::io::Error) -> String {
+    format!("{:?}", e.kind())
+}
+
+fn head(b: &[u8]) -> String {
+    if b.len() <= 96 { hex(b) } else { format!("{}…(+{} bytes)", hex(&b[..96]), b.len() - 96) }
+}
+
+fn first_diff(a: &[u8], b: &[u8]) -> String {
+    let n = a.iter().zip(b).position(|(x, y)| x != y).unwrap_or(a.len().min(b.len()));
+    format!("lengths {} vs {}, first difference at offset {n}", a.len(), b.len())
+}
+
+impl Trip<'_> {
+    /// `codec`: short codec name; `req`: requested configuration label; `enc`/`dec`: noodles; `xdec`:
+    /// the independent decoder (if one exists for this codec); `eff`: renders the *effective*
+    /// configuration from the encoded stream (what the encoder normalised the request to).
+    #[allow(clippy::too_many_arguments)]
+    fn run(
+        &mut self,
+        codec: &str,
+        req: &str,
+        data: &[u8],
+        enc: &dyn Fn() -> std::io::Result<Vec<u8>>,
+        dec: &dyn Fn(&[u8]) -> std::io::Result<Vec<u8>>,
+        xdec: Option<&dyn Fn(&[u8]) -> Result<Vec<u8>, String>>,
+        eff: &dyn Fn(&[u8]) -> String,
+    ) {
+        let o = &mut *self.o;
+        let key = format!("{codec}:{req}");
+        o.evaluations += 1;
+        o.count(&format!("L|{key}|{}", data.len()), 1);
+        o.fps.push(fnv1a(format!("{key}|{}", self.fp_class).as_bytes()));
+        let lc = gen_::len_class(data.len());
+        let encoded = match guard::catch(enc) {
+            Err(p) => {
+                o.violation_with(
+                    format!("panic:{}", p.sig),
+                    format!("{codec} encode panicked ({}) with {req} on {}: input {}", p.message, self.what, head(data)),
+                    json!({"input_hex": hex(&data[..data.len().min(4096)])}),
+                );
+                return;
+            }
+            Ok(Err(e)) => {
+                o.count(&format!("J|{key}|{}", io_kind(&e)), 1);
+                return;
+            }
+            Ok(Ok(b)) => b,
+        };
+        let e = eff(&encoded);
+        if e != req {
+            o.count(&format!("N|{key}"), 1);
+        }
+        match guard::catch(|| dec(&encoded)) {
+            Err(p) => o.violation_with(
+                format!("panic:{}", p.sig),
+                format!("{codec} decode panicked ({}) on its own encoding, requested {req}, effective {e}, {}: input {}", p.message, self.what, head(data)),
+                json!({"input_hex": hex(&data[..data.len().min(4096)])}),
+            ),
+            Ok(Err(err)) => o.violation_with(
+                format!("{codec}-selftrip:decode-error:{e}:len={lc}"),
+                format!("{codec} decode rejects noodles' own encoding ({err}); requested {req}, effective {e}, {}: input {} -> encoded {}", self.what, head(data), head(&encoded)),
+                json!({"input_hex": hex(&data[..data.len().min(4096)])}),
+            ),
+            Ok(Ok(back)) => {
+                if back != data {
+                    o.violation_with(
+                        format!("{codec}-selftrip:mismatch:{e}:len={lc}"),
+                        format!("{codec} decode(encode(x)) != x ({}); requested {req}, effective {e}, {}: input {} -> decoded {}", first_diff(&back, data), self.what, head(data), head(&back)),
+                        json!({"input_hex": hex(&data[..data.len().min(4096)])}),
+                    );
+                }
+            }
+        }
+        if let Some(x) = xdec {
+            o.count(&format!("X|{key}"), 1);
+            match guard::catch(|| x(&encoded)) {
+                Err(p) => o.inconclusive.push(format!("independent {codec} decoder panicked: {} ({})", p.message, self.what)),
+                Ok(Err(err)) => o.violation_with(
+                    format!("{codec}-xdec:{err}:{e}:len={lc}"),
+                    format!("the independent {codec} decoder (CRAM codecs specification) cannot decode noodles' stream: {err}; requested {req}, effective {e}, {}: input {} -> encoded {}", self.what, head(data), head(&encoded)),
+                    json!({"input_hex": hex(&data[..data.len().min(4096)]), "encoded_hex": hex(&encoded[..encoded.len().min(4096)])}),
+                ),
+                Ok(Ok(back)) => {
+                    if back != data {
+                        o.violation_with(
+                            format!("{codec}-xdec:mismatch:{e}:len={lc}"),
+                            format!("the independent {codec} decoder (CRAM codecs specification) decodes noodles' stream to something else ({}); requested {req}, effective {e}, {}: input {} -> encoded {}", first_diff(&back, data), self.what, head(data), head(&encoded)),
+                            json!({"input_hex": hex(&data[..data.len().min(4096)]), "encoded_hex": hex(&encoded[..encoded.len().min(4096)])}),
+                        );
+                    }
+                }
+            }
+        }
+    }
+}
+
+fn pre_sized(
+    f: impl Fn(&[u8], &mut [u8]) -> std::io::Result<()>,
+    n: usize,
+) -> impl Fn(&[u8]) -> std::io::Result<Vec<u8>> {
+    move |src| {
+        let mut dst = vec![0u8; n];
+        f(src, &mut dst)?;
+        Ok(dst)
+    }
+}
+
+/// Number of configurations of a payload case (the `part` filter runs over these indices).
+const N_CONFIGS: u32 = 2 + 128 + 128 + 7 + 4 + 3 + 3;
+
+fn run_payload(c: &Case, o: &mut CaseOut) {
+    let mut rng = Rng::new(c.pseed, 8, 0);
+    let data = gen_::make(&c.class, c.len, &mut rng);
+    let what = format!("payload class {} len {} pseed {}", c.class, c.len, c.pseed);
+    let fp_class = format!("{}|{}", c.class, c.len);
+    let mut t = Trip { o, what, fp_class };
+    let sel = |i: u32| i % c.part.1 == c.part.0;
+    let same = |s: &str| {
+        let s = s.to_string();
+        move |_: &[u8]| s.clone()
+    };
+    let mut i = 0u32;
+    // rANS 4x8
+    for (name, order) in [("o0", codecs::rans_4x8::Order::Zero), ("o1", codecs::rans_4x8::Order::One)] {
+        if sel(i) {
+            t.run(
+                "r4x8",
+                name,
+                &data,
+                &|| codecs::rans_4x8::encode(order, &data),
+                &|b| codecs::rans_4x8::decode(b),
+                Some(&|b| refrans::decode_4x8(b)),
+                &|b| if b.first() == Some(&1) { "o1".into() } else { "o0".into() },
+            );
+        }
+        i += 1;
+    }
+    // rANS Nx16
+    for k in 0..128 {
+        if sel(i) {
+            let f = subset(&NX16_BITS, k);
+            t.run(
+                "nx16",
+                &flag_names(&NX16_BITS, f),
+                &data,
+                &|| codecs::rans_nx16::encode(codecs::rans_nx16::Flags::from(f), &data),
+                &|b| codecs::rans_nx16::decode(b, data.len()),
+                Some(&|b| refrans::decode_nx16(b, data.len())),
+                &|b| flag_names(&NX16_BITS, b.first().copied().unwrap_or(0)),
+            );
+        }
+        i += 1;
+    }
+    // adaptive arithmetic coder
+    for k in 0..128 {
+        if sel(i) {
+            let f = subset(&AAC_BITS, k);
+            t.run(
+                "aac",
+                &flag_names(&AAC_BITS, f),
+                &data,
+                &|| codecs::aac::encode(codecs::aac::Flags::from(f), &data),
+                &|b| codecs::aac::decode(b, data.len()),
+                None,
+                &|b| flag_names(&AAC_BITS, b.first().copied().unwrap_or(0)),
+            );
+        }
+        i += 1;
+    }
+    // fqzcomp over every partition style
+    for (k, kind) in gen_::PARTITIONS.iter().enumerate() {
+        if sel(i) {
+            let mut prng = Rng::new(c.pseed, 9, k as u64);
+            let lens = gen_::partition(kind, data.len(), &mut prng);
+            t.o.max("max_fqz_records", lens.len() as u64);
+            t.run(
+                "fqz",
+                kind,
+                &data,
+                &|| codecs::fqzcomp::encode(&lens, &data),
+                &|b| codecs::fqzcomp::decode(b),
+                None,
+                &same(kind),
+            );
+        }
+        i += 1;
+    }
+    for level in [0u32, 1, 6, 9] {
+        if sel(i) {
+            let l = format!("level{level}");
+            t.run("gzip", &l, &data, &|| codecs::gzip::encode(level, &data), &pre_sized(codecs::gzip::decode, data.len()), None, &same(&l));
+        }
+        i += 1;
+    }
+    for level in [1u32, 5, 9] {
+        if sel(i) {
+            let l = format!("level{level}");
+            t.run("bzip2", &l, &data, &|| codecs::bzip2::encode(level, &data), &pre_sized(codecs::bzip2::decode, data.len()), None, &same(&l));
+        }
+        i += 1;
+    }
+    for level in [0u32, 3, 6] {
+        if sel(i) {
+            let l = format!("level{level}");
+            t.run("lzma", &l, &data, &|| codecs::lzma::encode(level, &data), &pre_sized(codecs::lzma::decode, data.len()), None, &same(&l));
+        }
+        i += 1;
+    }
+    debug_assert_eq!(i, N_CONFIGS);
+}
+
+fn run_quals(c: &Case, o: &mut CaseOut) {
+    let mut rng = Rng::new(c.pseed, 10, 0);
+    let (lens, data) = gen_::quality_records(&mut rng, c.len, &c.class);
+    let what = format!("quality records style {} n {} pseed {} (lens {:?}…)", c.class, c.len, c.pseed, &lens[..lens.len().min(8)]);
+    o.max("max_fqz_records", lens.len() as u64);
+    let fp_class = format!("quals|{}|{}", c.class, c.len);
+    let mut t = Trip { o, what, fp_class };
+    let req = format!("records-{}", c.class);
+    t.run("fqz", &req, &data, &|| codecs::fqzcomp::encode(&lens, &data), &|b| codecs::fqzcomp::decode(b), None, &|_| req.clone());
+}
+
+fn split_names(mut b: &[u8]) -> Vec<Vec<u8>> {
+    if b.is_empty() {
+        return Vec::new();
+    }
+    if let Some(s) = b.strip_suffix(&[0]) {
+        b = s;
+    }
+    b.split(|&x| x == 0).map(|s| s.to_vec()).collect()
+}
+
+fn show_names(n: &[Vec<u8>]) -> String {
+    let v: Vec<String> = n.iter().take(12).map(|s| String::from_utf8_lossy(s).into_owned()).collect();
+    format!("{v:?}{}", if n.len() > 12 { format!(" …({} names)", n.len()) } else { String::new() })
+}
+
+fn run_names(c: &Case, o: &mut CaseOut) {
+    let mut rng = Rng::new(c.pseed, 11, 0);
+    let list: Vec<Vec<u8>> = if c.class == "empty_list" { Vec::new() } else { gen_::names(&c.class, c.len, &mut rng) };
+    o.max("max_names_per_list", list.len() as u64);
+    for trailing_nul in [true, false] {
+        let mut src = Vec::new();
+        for (i, n) in list.iter().enumerate() {
+            if i > 0 {
+                src.push(0);
+            }
+            src.extend_from_slice(n);
+        }
+        if trailing_nul && !list.is_empty() {
+            src.push(0);
+        }
+        let req = if trailing_nul { "nul-terminated" } else { "nul-separated" };
+        let key = format!("tok:{req}");
+        o.evaluations += 1;
+        o.count(&format!("L|{key}|{}", list.len()), 1);
+        o.fps.push(fnv1a(format!("{key}|{}|{}", c.class, list.len()).as_bytes()));
+        let wit = json!({"names": list.iter().take(400).map(|s| String::from_utf8_lossy(s).into_owned()).collect::<Vec<_>>()});
+        let encoded = match guard::catch(|| codecs::name_tokenizer::encode(&src)) {
+            Err(p) => {
+                o.violation_with(format!("panic:{}", p.sig), format!("name tokenizer encode panicked ({}) on family {} ({req}): {}", p.message, c.class, show_names(&list)), wit);
+                continue;
+            }
+            Ok(Err(e)) => {
+                o.count(&format!("J|{key}|{}", io_kind(&e)), 1);
+                continue;
+            }
+            Ok(Ok(b)) => b,
+        };
+        match guard::catch(|| codecs::name_tokenizer::decode(&encoded)) {
+            Err(p) => o.violation_with(format!("panic:{}", p.sig), format!("name tokenizer decode panicked ({}) on its own encoding, family {} ({req}): {}", p.message, c.class, show_names(&list)), wit),
+            Ok(Err(e)) => o.violation_with(
+                format!("tok-selftrip:decode-error:family={}", c.class),
+                format!("name tokenizer decode rejects noodles' own encoding ({e}), family {} ({req}): {}", c.class, show_names(&list)),
+                wit,
+            ),
+            Ok(Ok(back)) => {
+                let got = split_names(&back);
+                if got != list {
+                    let k = got.iter().zip(&list).position(|(a, b)| a != b).unwrap_or(got.len().min(list.len()));
+                    let show = |v: &Vec<Vec<u8>>, k: usize| v.get(k).map(|s| String::from_utf8_lossy(s).into_owned()).unwrap_or_else(|| "<none>".into());
+                    let prev = if k > 0 { show(&list, k - 1) } else { "<first>".into() };
+                    o.violation_with(
+                        format!("tok-selftrip:mismatch:family={}", c.class),
+                        format!(
+                            "name tokenizer decode(encode(names)) != names, family {} ({req}): {} names in, {} out; first difference at name #{k}: expected {:?}, got {:?} (previous name {:?})",
+                            c.class, list.len(), got.len(), show(&list, k), show(&got, k), prev
+                        ),
+                        wit,
+                    );
+                }
+            }
+        }
+    }
+}
+
+// ------------------------------------------------------------------------------------------------
+// integer codings
+// ------------------------------------------------------------------------------------------------
+
+/// One integer coding under test: noodles writer/reader + reference encoder.
+trait Coding {
+    type T: Copy + PartialEq + std::fmt::Debug + std::fmt::LowerHex;
+    const NAME: &'static str;
+    fn write(buf: &mut Vec<u8>, v: Self::T) -> std::io::Result<()>;
+    fn read<R: Read>(r: &mut R) -> std::io::Result<Self::T>;
+    fn ref_encode(v: Self::T, out: &mut Vec<u8>);
+    fn ref_decode(b: &[u8]) -> Option<(Self::T, usize)>;
+}
+
+struct Itf8;
+impl Coding for Itf8 {
+    type T = i32;
+    const NAME: &'static str = "itf8";
+    fn write(buf: &mut Vec<u8>, v: i32) -> std::io::Result<()> {
+        num::write_itf8(buf, v)
+    }
+    fn read<R: Read>(r: &mut R) -> std::io::Result<i32> {
+        num::read_itf8(r)
+    }
+    fn ref_encode(v: i32, out: &mut Vec<u8>) {
+        refnum::itf8_encode(v, out)
+    }
+    fn ref_decode(b: &[u8]) -> Option<(i32, usize)> {
+        refnum::itf8_decode(b)
+    }
+}
+
+struct Ltf8;
+impl Coding for Ltf8 {
+    type T = i64;
+    const NAME: &'static str = "ltf8";
+    fn write(buf: &mut Vec<u8>, v: i64) -> std::io::Result<()> {
+        num::write_ltf8(buf, v)
+    }
+    fn read<R: Read>(r: &mut R) -> std::io::Result<i64> {
+        num::read_ltf8(r)
+    }
+    fn ref_encode(v: i64, out: &mut Vec<u8>) {
+        refnum::ltf8_encode(v, out)
+    }
+    fn ref_decode(b: &[u8]) -> Option<(i64, usize)> {
+        refnum::ltf8_decode(b)
+    }
+}
+
+struct Uint7;
+impl Coding for Uint7 {
+    type T = u32;
+    const NAME: &'static str = "uint7";
+    fn write(buf: &mut Vec<u8>, v: u32) -> std::io::Result<()> {
+        num::write_uint7(buf, v)
+    }
+    fn read<R: Read>(r: &mut R) -> std::io::Result<u32> {
+        num::read_uint7(r)
+    }
+    fn ref_encode(v: u32, out: &mut Vec<u8>) {
+        refnum::uint7_encode(v, out)
+    }
+    fn ref_decode(b: &[u8]) -> Option<(u32, usize)> {
+        refnum::uint7_decode(b)
+    }
+}
+
+const INT_BATCH: usize = 4096;
+
+/// Checks one batch; returns the first failure as (sig, desc).
+fn int_batch<C: Coding>(vals: &[C::T]) -> Option<(String, String)> {
+    let mut buf: Vec<u8> = Vec::with_capacity(vals.len() * 9);
+    let mut rf: Vec<u8> = Vec::with_capacity(16);
+    let name = C::NAME;
+    for &v in vals {
+        let start = buf.len();
+        if let Err(e) = C::write(&mut buf, v) {
+            return Some((format!("{name}-write-error"), format!("write_{name}({v:?} = {v:#x}) into a Vec failed: {e}")));
+        }
+        let enc = &buf[start..];
+        rf.clear();
+        C::ref_encode(v, &mut rf);
+        if enc != &rf[..] {
+            return Some((
+                format!("{name}-encoding-ne-spec:bytes={}-vs-{}", enc.len(), rf.len()),
+                format!("write_{name}({v:?} = {v:#x}) emitted {} but the specification's encoding is {}", hex(enc), hex(&rf)),
+            ));
+        }
+        match C::ref_decode(enc) {
+            Some((w, n)) if w == v && n == enc.len() => {}
+            other => {
+                return Some((
+                    format!("{name}-refdecode:bytes={}", enc.len()),
+                    format!("the reference {name} decoder reads {other:?} from noodles' encoding {} of {v:?}", hex(enc)),
+                ));
+            }
+        }
+        let mut r = enc;
+        match C::read(&mut r) {
+            Ok(w) if w == v && r.is_empty() => {}
+            Ok(w) => {
+                return Some((
+                    format!("{name}-roundtrip:bytes={}", enc.len()),
+                    format!("read_{name}(write_{name}({v:?} = {v:#x})) = {w:?} = {w:#x} ({} of {} bytes left unread); encoding {}", r.len(), enc.len(), hex(enc)),
+                ));
+            }
+            Err(e) => {
+                return Some((
+                    format!("{name}-roundtrip:read-error:bytes={}", enc.len()),
+                    format!("read_{name} fails ({e}) on write_{name}({v:?} = {v:#x}) = {}", hex(enc)),
+                ));
+            }
+        }
+    }
+    // the same values from a source that delivers one byte per read call
+    let mut cr = ChunkedRead::from_slice(&buf, Sizes::Fixed(1));
+    for &v in vals {
+        match C::read(&mut cr) {
+            Ok(w) if w == v => {}
+            Ok(w) => {
+                return Some((
+                    format!("{name}-chunked-read:mismatch"),
+                    format!("read_{name} from a 1-byte-per-call source returned {w:?} = {w:#x} for the encoding of {v:?} = {v:#x}"),
+                ));
+            }
+            Err(e) => {
+                return Some((
+                    format!("{name}-chunked-read:error"),
+                    format!("read_{name} from a 1-byte-per-call source failed ({e}) for the encoding of {v:?} = {v:#x}"),
+                ));
+            }
+        }
+    }
+    if cr.position() != buf.len() {
+        return Some((format!("{name}-chunked-read:left-over"), format!("{} of {} bytes left unread after the batch", buf.len() - cr.position(), buf.len())));
+    }
+    None
+}
+
+fn int_values<C: Coding>(o: &mut CaseOut, vals: &[C::T]) {
+    for chunk in vals.chunks(INT_BATCH) {
+        match guard::catch(|| int_batch::<C>(chunk)) {
+            Ok(None) => {}
+            Ok(Some((sig, desc))) => {
+                o.violation(sig, desc);
+            }
+            Err(p) => {
+                // locate the value
+                let mut wit = String::new();
+                for &v in chunk {
+                    if guard::catch(|| int_batch::<C>(&[v])).is_err() {
+                        wit = format!("{v:?} = {v:#x}");
+                        break;
+                    }
+                }
+                o.violation(format!("panic:{}", p.sig), format!("{} write/read panicked ({}) on value {wit}", C::NAME, p.message));
+            }
+        }
+    }
+    o.count(&format!("{}_values_checked", C::NAME), vals.len() as u64);
+    o.evaluations += vals.len() as u64;
+}
+
+fn around(out: &mut Vec<i128>, centre: i128, radius: i128) {
+    for d in -radius..=radius {
+        out.push(centre + d);
+    }
+}
+
+fn itf8_boundary_set() -> Vec<i32> {
+    // as unsigned bit patterns: 0, 2^7, 2^14, 2^21, 2^28, 2^31 (= i32::MIN / i32::MAX + 1), 2^32 (wraps to 0)
+    let mut v = Vec::new();
+    for c in [0i128, 1 << 7, 1 << 14, 1 << 21, 1 << 28, 1 << 31, 1 << 32, 1 << 8, 1 << 16, 1 << 24] {
+        around(&mut v, c, 300);
+    }
+    let mut out: Vec<i32> = v.into_iter().map(|x| (x.rem_euclid(1 << 32)) as u32 as i32).collect();
+    out.sort_unstable();
+    out.dedup();
+    out
+}
+
+fn ltf8_boundary_set() -> Vec<i64> {
+    let mut v = Vec::new();
+    around(&mut v, 0, 300);
+    for k in 1..=9 {
+        around(&mut v, 1i128 << (7 * k), 300);
+    }
+    for k in 1..=8 {
+        around(&mut v, 1i128 << (8 * k), 300);
+    }
+    around(&mut v, 1i128 << 63, 300); // i64::MIN / i64::MAX
+    around(&mut v, 1i128 << 64, 300); // -1 / 0
+    let mut out: Vec<i64> = v.into_iter().map(|x| (x.rem_euclid(1 << 64)) as u64 as i64).collect();
+    out.sort_unstable();
+    out.dedup();
+    out
+}
+
+fn uint7_boundary_set() -> Vec<u32> {
+    let mut v = Vec::new();
+    around(&mut v, 0, 300);
+    for k in 1..=4 {
+        around(&mut v, 1i128 << (7 * k), 300);
+    }
+    for k in 1..=3 {
+        around(&mut v, 1i128 << (8 * k), 300);
+    }
+    around(&mut v, 1i128 << 32, 300);
+    let mut out: Vec<u32> = v.into_iter().filter(|x| (0..1i128 << 32).contains(x)).map(|x| x as u32).collect();
+    out.sort_unstable();
+    out.dedup();
+    out
+}
+
+/// Random values with a uniformly chosen bit width, so every encoded length is hit equally often.
+fn random_width_u64(rng: &mut Rng, max_bits: u32) -> u64 {
+    let bits = rng.urange(0, max_bits as usize) as u32;
+    let v = rng.next_u64();
+    if bits == 0 {
+        0
+    } else if bits >= 64 {
+        v
+    } else {
+        // top bit of the chosen width set
+        (v & ((1u64 << bits) - 1)) | (1u64 << (bits - 1))
+    }
+}
+
+fn run_ints(c: &Case, o: &mut CaseOut) {
+    let mut rng = Rng::new(c.pseed, 12, 0);
+    match (c.kind, c.class.as_str()) {
+        ("itf8_range", _) => {
+            // c.len consecutive bit patterns from c.lo
+            let mut vals: Vec<i32> = Vec::with_capacity(INT_BATCH);
+            let mut x = c.lo;
+            let end = c.lo + c.len as u64;
+            while x < end {
+                vals.clear();
+                let n = (end - x).min(INT_BATCH as u64 * 16);
+                vals.extend((x..x + n).map(|u| u as u32 as i32));
+                int_values::<Itf8>(o, &vals);
+                x += n;
+            }
+            o.count("itf8_exhaustive_range_values", c.len as u64);
+            o.fp = fnv1a(format!("itf8_range|{}", c.lo).as_bytes());
+        }
+        ("itf8_set", "boundaries") => {
+            let v = itf8_boundary_set();
+            int_values::<Itf8>(o, &v);
+            o.fp = fnv1a(b"itf8|boundaries");
+        }
+        ("itf8_set", _) => {
+            let v: Vec<i32> = (0..c.len).map(|i| if i % 2 == 0 { rng.next_u32() as i32 } else { random_width_u64(&mut rng, 32) as u32 as i32 }).collect();
+            int_values::<Itf8>(o, &v);
+            o.fp = fnv1a(format!("itf8|random|{}", c.pseed).as_bytes());
+        }
+        ("ltf8", "boundaries") => {
+            let v = ltf8_boundary_set();
+            int_values::<Ltf8>(o, &v);
+            o.fp = fnv1a(b"ltf8|boundaries");
+        }
+        ("ltf8", _) => {
+            let v: Vec<i64> = (0..c.len).map(|i| if i % 2 == 0 { rng.next_u64() as i64 } else { random_width_u64(&mut rng, 64) as i64 }).collect();
+            int_values::<Ltf8>(o, &v);
+            o.fp = fnv1a(format!("ltf8|random|{}", c.pseed).as_bytes());
+        }
+        ("uint7", "boundaries") => {
+            let v = uint7_boundary_set();
+            int_values::<Uint7>(o, &v);
+            o.fp = fnv1a(b"uint7|boundaries");
+        }
+        ("uint7", _) => {
+            let v: Vec<u32> = (0..c.len).map(|i| if i % 2 == 0 { rng.next_u32() } else { random_width_u64(&mut rng, 32) as u32 }).collect();
+            int_values::<Uint7>(o, &v);
+            o.fp = fnv1a(format!("uint7|random|{}", c.pseed).as_bytes());
+        }
+        other => panic!("unknown integer case {other:?}"),
+    }
+    // evaluations were counted per value
+    o.evaluations -= 1;
+}
+
+fn run_case(c: &Case) -> CaseOut {
+    let mut o = CaseOut::new();
+    o.evaluations = 0;
+    match c.kind {
+        "payload" => run_payload(c, &mut o),
+        "quals" => run_quals(c, &mut o),
+        "names" => run_names(c, &mut o),
+        _ => {
+            o.evaluations = 1;
+            run_ints(c, &mut o)
+        }
+    }
+    o
+}
+
+// ------------------------------------------------------------------------------------------------
+// case list
+// ------------------------------------------------------------------------------------------------
+
+fn parts_for(len: usize) -> u32 {
+    match len {
+        0..=5000 => 1,
+        5001..=70000 => 8,
+        70001..=300000 => 32,
+        _ => 136,
+    }
+}
+
+fn gen_cases(ctx: &Ctx) -> Vec<Case> {
+    let thorough = ctx.tier == Tier::Thorough;
+    let mut cases: Vec<Case> = Vec::new();
+    let mut k = 0u64;
+    let pseed = |k: &mut u64| {
+        *k += 1;
+        ctx.seed.wrapping_mul(0x9E37_79B9).wrapping_add(*k << 8)
+    };
+    let classes = gen_::all_classes();
+    let max_len = ctx.budget("maxlen", 70_000, 1 << 20) as usize;
+    let lengths = gen_::lengths(max_len);
+    // variants per (class, length): quick 1, thorough 5 for short lengths
+    let variants_short = ctx.budget("variants", 1, 5);
+    let mut payload_cases: Vec<Case> = Vec::new();
+    for &len in &lengths {
+        for class in &classes {
+            // the heaviest lengths only for a rotating third of the classes
+            if len > 300_000 && (fnv1a(class.as_bytes()) ^ len as u64) % 3 != ctx.seed % 3 {
+                continue;
+            }
+            let nvar = if len <= 1100 { variants_short } else { 1 };
+            for _ in 0..nvar {
+                let ps = pseed(&mut k);
+                let n = parts_for(len);
+                for p in 0..n {
+                    payload_cases.push(Case { kind: "payload", class: class.to_string(), len, pseed: ps, part: (p, n), lo: 0 });
+                }
+            }
+        }
+    }
+    // seeded random lengths
+    let mut rng = Rng::new(ctx.seed, 80, 0);
+    let nrand = ctx.budget("randlens", 250, 3000);
+    for _ in 0..nrand {
+        let len = match rng.below(4) {
+            0 => rng.urange(71, 600),
+            1 => rng.urange(600, 5000),
+            2 => rng.urange(71, 5000) / 32 * 32 + rng.urange(0, 2) * 31 % 33,
+            _ => rng.urange(5001, 70_000.min(max_len.max(5001))),
+        };
+        let class = *rng.pick(&classes);
+        let ps = pseed(&mut k);
+        let n = parts_for(len);
+        let p = rng.below(n as u64) as u32;
+        payload_cases.push(Case { kind: "payload", class: class.to_string(), len, pseed: ps, part: (p, n), lo: 0 });
+    }
+    // `cases=N` selects a reduced workload (sanitizer stages): a deterministic stride over the list
+    let want = ctx.budget("cases", u64::MAX, u64::MAX);
+    let reduce = |v: Vec<Case>, want: u64| -> Vec<Case> {
+        if want == u64::MAX || v.len() as u64 <= want {
+            return v;
+        }
+        let n = v.len() as u64;
+        (0..want).map(|i| v[(i * n / want) as usize].clone()).collect()
+    };
+    let reduced = want != u64::MAX;
+    cases.extend(reduce(payload_cases, want));
+
+    // quality strings with record structure
+    let mut q = Vec::new();
+    for style in ["fixed", "variable", "mixed"] {
+        for nrec in [1usize, 2, 3, 10, 100, 1000] {
+            for _ in 0..ctx.budget("qualvariants", 6, 40) {
+                q.push(Case { kind: "quals", class: style.into(), len: nrec, pseed: pseed(&mut k), part: (0, 1), lo: 0 });
+            }
+        }
+    }
+    cases.extend(reduce(q, want / 10));
+
+    // name lists
+    let mut n = Vec::new();
+    n.push(Case { kind: "names", class: "empty_list".into(), len: 0, pseed: 0, part: (0, 1), lo: 0 });
+    for fam in gen_::NAME_FAMILIES {
+        for count in [1usize, 2, 3, 5, 17, 100, 1000] {
+            if (*fam == "single" || *fam == "single_char") && count > 1 {
+                continue;
+            }
+            for _ in 0..ctx.budget("namevariants", 4, 60) {
+                n.push(Case { kind: "names", class: fam.to_string(), len: count, pseed: pseed(&mut k), part: (0, 1), lo: 0 });
+            }
+        }
+    }
+    if thorough {
+        for fam in ["illumina", "illumina_pairs", "mixed", "padded"] {
+            n.push(Case { kind: "names", class: fam.into(), len: 20_000, pseed: pseed(&mut k), part: (0, 1), lo: 0 });
+        }
+    }
+    cases.extend(reduce(n, want / 10));
+
+    // integers
+    for (kind, _) in [("itf8_set", 0), ("ltf8", 0), ("uint7", 0)] {
+        cases.push(Case { kind, class: "boundaries".into(), len: 0, pseed: 0, part: (0, 1), lo: 0 });
+        let chunks = if reduced { 1 } else { 16 };
+        for _ in 0..chunks {
+            cases.push(Case { kind, class: "random".into(), len: 1 << 16, pseed: pseed(&mut k), part: (0, 1), lo: 0 });
+        }
+    }
+    if ctx.budget("itf8_exhaustive", 0, 1) == 1 {
+        let step = 1u64 << 22;
+        let mut lo = 0u64;
+        while lo < 1 << 32 {
+            cases.push(Case { kind: "itf8_range", class: "exhaustive".into(), len: step as usize, pseed: 0, part: (0, 1), lo });
+            lo += step;
+        }
+    }
+    // interleave heavy and light cases across the shards
+    let mut rng = Rng::new(0xC08, 81, 0);
+    rng.shuffle(&mut cases);
+    cases
+}
+
+// ------------------------------------------------------------------------------------------------
+// evidence post-processing
+// ------------------------------------------------------------------------------------------------
+
+/// Folds the per-run counters `L|cfg|len`, `X|cfg`, `J|cfg|reason`, `N|cfg` into one table per
+/// codec x configuration: cases, distinct lengths covered, cross-decoded cases, rejections.
+fn summarise(rep: &mut Report) {
+    let mut per: std::collections::BTreeMap<String, Map<String, Value>> = Default::default();
+    let mut lens: std::collections::BTreeMap<String, Vec<u64>> = Default::default();
+    let keys: Vec<String> = rep.counters.keys().filter(|k| k.len() > 2 && &k[1..2] == "|" && "LXJN".contains(&k[..1])).cloned().collect();
+    let mut by_codec: std::collections::BTreeMap<String, [u64; 4]> = Default::default();
+    for k in keys {
+        let n = rep.counters.remove(&k).unwrap();
+        let mut it = k.splitn(3, '|');
+        let tag = it.next().unwrap();
+        let cfg = it.next().unwrap().to_string();
+        let rest = it.next().unwrap_or("");
+        let codec = cfg.split(':').next().unwrap().to_string();
+        let e = per.entry(cfg.clone()).or_default();
+        let add = |e: &mut Map<String, Value>, key: &str, n: u64| {
+            let cur = e.get(key).and_then(|v| v.as_u64()).unwrap_or(0);
+            e.insert(key.to_string(), json!(cur + n));
+        };
+        let bc = by_codec.entry(codec).or_default();
+        match tag {
+            "L" => {
+                add(e, "cases", n);
+                bc[0] += n;
+                lens.entry(cfg).or_default().push(rest.parse().unwrap_or(0));
+            }
+            "X" => {
+                add(e, "cross_decoded", n);
+                bc[1] += n;
+            }
+            "J" => {
+                add(e, &format!("encoder_rejected[{rest}]"), n);
+                bc[2] += n;
+            }
+            "N" => {
+                add(e, "encoder_normalised_flags", n);
+                bc[3] += n;
+            }
+            _ => {}
+        }
+    }
+    for (cfg, mut l) in lens {
+        l.sort_unstable();
+        l.dedup();
+        let e = per.entry(cfg).or_default();
+        e.insert("lengths_covered".into(), json!(l.len()));
+        e.insert("min_len".into(), json!(l.first()));
+        e.insert("max_len".into(), json!(l.last()));
+    }
+    for (codec, v) in &by_codec {
+        rep.counters.insert(format!("round_trips[{codec}]"), v[0]);
+        if v[1] > 0 {
+            rep.counters.insert(format!("cross_decoded[{codec}]"), v[1]);
+        }
+        if v[2] > 0 {
+            rep.counters.insert(format!("encoder_rejected[{codec}]"), v[2]);
+        }
+        if v[3] > 0 {
+            rep.counters.insert(format!("encoder_normalised_flags[{codec}]"), v[3]);
+        }
+    }
+    let total: u64 = by_codec.values().map(|v| v[0]).sum();
+    rep.counters.insert("codec_round_trips".into(), total);
+    rep.counters.insert("codec_configurations".into(), per.len() as u64);
+    rep.extra.insert("per_codec_configuration".into(), Value::Object(per.into_iter().map(|(k, v)| (k, Value::Object(v))).collect()));
+}
 
 fn main() {
-    eprintln!("c08: not implemented");
-    std::process::exit(2);
+    let ctx = Ctx::from_args();
+    let ctx = vcore::cases::replay_request(&ctx).map(|r| r.1).unwrap_or(ctx);
+    let mut rep = Report::new(
+        "case = one payload (class x length x seed) pushed through every codec configuration (rANS 4x8 o0/o1, rANS Nx16 x 128 flag \
+         subsets, AAC x 128 flag subsets, fqzcomp x 7 partition styles, gzip/bzip2/lzma levels; long payloads are split into parts \
+         that each run a residue class of the configurations), or one name list (family x count, NUL-terminated and NUL-separated \
+         framing), or one quality-record set, or one batch of integers; evaluations = codec round trips + integer values checked; \
+         distinct = distinct (codec, requested configuration, payload class / name family, length or count) plus one per integer \
+         batch; every case is non-trivial (the empty input is a case of the property)",
+    );
+    rep.assumptions.push(
+        "independent rANS 4x8 / Nx16 decoders and ITF8/LTF8/uint7 reference codecs were written from the CRAM 3.x / CRAM codecs \
+         specification as reconstructed from memory of the text and of the htscodecs reference behaviour (no network, no copy of the \
+         documents in the sandbox); compressed order-1 tables, 10-bit order-1 shift and compressed RLE meta data are implemented in \
+         the independent decoder but never exercised because noodles' encoder never emits them"
+            .into(),
+    );
+    rep.assumptions.push(
+        "name lists: names are non-empty, NUL-free, over [!-?A-~], at most 254 bytes; comparison on the list of names (one trailing NUL \
+         not significant); fqzcomp partitions have only positive record lengths (the empty input is given the empty partition)"
+            .into(),
+    );
+    rep.assumptions.push("AAC, fqzcomp, name tokenizer, gzip, bzip2, lzma: self round trip only (no independent decoder)".into());
+    let cases = gen_cases(&ctx);
+    let f = |i: u64| -> CaseOut {
+        let c = &cases[i as usize];
+        let mut o = run_case(c);
+        if i % 997 == 0 {
+            o.sample = Some(case_json(c));
+        }
+        o
+    };
+    run_cases(&ctx, &mut rep, cases.len() as u64, 120.0, &f, &|i| case_json(&cases[i as usize]));
+    summarise(&mut rep);
+    if ctx.replay.is_none() {
+        let reduced = ctx.param("cases").is_some();
+        let counters = rep.counters.clone();
+        let g = |k: &str| counters.get(k).copied().unwrap_or(0);
+        if !reduced {
+            rep.floor("codec_round_trips", g("codec_round_trips"), 50_000);
+            rep.floor("cross_decoded[r4x8]", g("cross_decoded[r4x8]"), 2_000);
+            rep.floor("cross_decoded[nx16]", g("cross_decoded[nx16]"), 20_000);
+            rep.floor("round_trips[aac]", g("round_trips[aac]"), 20_000);
+            rep.floor("round_trips[fqz]", g("round_trips[fqz]"), 1_000);
+            rep.floor("round_trips[tok]", g("round_trips[tok]"), 500);
+            rep.floor("itf8_values_checked", g("itf8_values_checked"), 1 << 20);
+            rep.floor("ltf8_values_checked", g("ltf8_values_checked"), 1 << 20);
+            rep.floor("uint7_values_checked", g("uint7_values_checked"), 1 << 20);
+        }
+        let ex = g("itf8_exhaustive_range_values");
+        if ctx.budget("itf8_exhaustive", 0, 1) == 1 {
+            rep.extra.insert("itf8_exhaustive".into(), json!(ex == 1u64 << 32));
+            if ex != 1u64 << 32 {
+                rep.floors_unmet.push(format!("ITF8 exhaustive sub-space incomplete: {ex} of 2^32 values checked"));
+            }
+        } else {
+            rep.extra.insert("itf8_exhaustive".into(), json!(false));
+        }
+    }
+    rep.finish(&ctx);
 }
